@@ -209,22 +209,28 @@ int sp_ienv(int ispec)
 }
 
 /* ======================================================================= events */
-static int G_evdebug; static __thread long T_ev[6]; static __thread int T_ev_first[6];
+static int G_evdebug; static __thread int T_zp_nocand; static __thread long T_ev[6]; static __thread int T_ev_first[6];
 void slu_verif_event(int kind, int a, int b)
 {
     (void)b; if (kind < 1 || kind > 4) return;
     if (kind == 4) { if (b >= 16) T_ev[VF_EV_WS_GROWTH]++; if (G_evdebug) fprintf(stderr, "EV4 overlap=%d type=%d\n", a, b);
         /* an in-flight growth of UCOL books USUB's share as well and is legitimately over-committed until the USUB call that follows has checked it */
         if (!a || b == 16 + UCOL) return; }      /* kind 4 counts as an overlap event only when the invariant is broken */
+    if (kind == VF_EV_ZERO_PIVOT && b == 0 && !T_zp_nocand) {
+        /* a column without ANY candidate row (listed finding F6): visible to the supervisor even if the process dies later */
+        T_zp_nocand = 1;
+        if (G_outfd >= 0 && G_cur) { char line[96]; snprintf(line, sizeof line, "{\"t\":\"ev\",\"i\":%ld,\"k\":1,\"a\":%d}\n", G_cur->index, a); ssize_t w = write(G_outfd, line, strlen(line)); (void)w; }
+    }
     if (T_ev[kind]++ == 0) {
         T_ev_first[kind] = a;
-        if (kind == VF_EV_ZERO_PIVOT && G_outfd >= 0 && G_cur) {   /* visible to the supervisor even if the process dies later */
+        if (0) {
             char line[96]; snprintf(line, sizeof line, "{\"t\":\"ev\",\"i\":%ld,\"k\":1,\"a\":%d}\n", G_cur->index, a);
             ssize_t w = write(G_outfd, line, strlen(line)); (void)w;
         }
     }
 }
-void vf_events_reset(void) { for (int i = 0; i < 6; i++) { T_ev[i] = 0; T_ev_first[i] = -1; } }
+void vf_events_reset(void) { for (int i = 0; i < 6; i++) { T_ev[i] = 0; T_ev_first[i] = -1; } T_zp_nocand = 0; }
+int vf_zero_pivot_without_candidate(void) { return T_zp_nocand; }
 long vf_events_count(int k) { return T_ev[k]; }
 int  vf_events_first(int k) { return T_ev[k] ? T_ev_first[k] : -1; }
 
@@ -419,7 +425,7 @@ int main(int argc, char **argv)
 #if !defined(__SANITIZE_ADDRESS__) && !defined(VF_MSAN)
         /* known finding F6/F14: after a zero pivot the library may write out of bounds; without a memory sanitizer that
            damage is silent and would surface in a LATER case of this process. Recycle the process instead. */
-        if (vf_events_count(VF_EV_ZERO_PIVOT) > 0 || strstr(c.notes, "structsing")) { out_line("{\"t\":\"recycle\"}\n"); _exit(VF_EXIT_RECYCLE); }
+        if (vf_zero_pivot_without_candidate() || strstr(c.notes, "structsing")) { out_line("{\"t\":\"recycle\"}\n"); _exit(VF_EXIT_RECYCLE); }
 #endif
     }
     out_line("{\"t\":\"done\"}\n");
